@@ -196,6 +196,25 @@ pub fn run_conv(case: &Value) -> Value {
                 out["inner_out"] = dispatch(inner, &input)
                     .unwrap_or_else(|| json!({"error": format!("unknown target {}", inner)}));
             }
+            if let Some(elem) = case["per_item"].as_str() {
+                // the element type on every item of the top-level list (null for literal items)
+                if let Input::Meta(syn::Meta::List(l)) = &input {
+                    if let Ok(items) = NestedMeta::parse_meta_list(l.tokens.clone()) {
+                        let outs: Vec<Value> = items
+                            .iter()
+                            .map(|n| match n {
+                                NestedMeta::Meta(m) => dispatch(elem, &Input::Meta(m.clone()))
+                                    .unwrap_or_else(|| json!({"error": "unknown element target"})),
+                                NestedMeta::Lit(_) => Value::Null,
+                            })
+                            .collect();
+                        out["items_out"] = Value::Array(outs);
+                    }
+                }
+            }
+            if let Some(twin) = case["twin"].as_str() {
+                out["twin_out"] = dispatch(twin, &input).unwrap_or_else(|| json!({"error": "unknown twin"}));
+            }
             out["pf"] = float_oracle(&echo);
             if case["oracles"].as_bool().unwrap_or(false) {
                 out["or"] = syn_oracles(&echo);
